@@ -321,3 +321,62 @@ func init() {
 		return &PureCase{ValCase: vc, Kind: kind}
 	}
 }
+
+// Family purego (C14): Schema values built in Go (PropertyOrder with strangers and
+// duplicates, Extra, every subschema-holding field), snapshotted by reflection before the
+// package sees them; Marshal x5, Resolve, CloneSchemas, Marshal again; the snapshot must not
+// change and all Marshal results must be the same bytes.
+type PureGoCase struct {
+	*SchemaCase
+	snap0 string
+}
+
+func (c *PureGoCase) runImpl() string {
+	base := c.SchemaCase.runImpl()
+	lawS, lawM := "1", "1"
+	if snapshot(c.S) != c.snap0 {
+		lawS = "0"
+	}
+	m1, e1 := json.Marshal(c.S)
+	guarded(func() { c.S.Resolve(nil) })
+	if snapshot(c.S) != c.snap0 {
+		lawS = "0"
+	}
+	var cl *js.Schema
+	guarded(func() { cl = c.S.CloneSchemas() })
+	_ = cl
+	m2, e2 := json.Marshal(c.S)
+	if (e1 == nil) != (e2 == nil) || !bytes.Equal(m1, m2) {
+		lawM = "0"
+	}
+	if snapshot(c.S) != c.snap0 {
+		lawS = "0"
+	}
+	return base + " law_schema_unchanged=" + lawS + " law_marshal_same=" + lawM
+}
+
+func init() {
+	families["purego"] = func(r *rng, id string) Case {
+		var s *js.Schema
+		if r.chance(1, 2) {
+			s = genOrderSchema(r, 2)
+		} else {
+			g := &schemaGen{r: r, plain: r.chance(1, 2)}
+			s = g.schema(3)
+			if r.chance(1, 2) && len(s.Properties) > 0 {
+				names := make([]string, 0, len(s.Properties))
+				for k := range s.Properties {
+					names = append(names, k)
+				}
+				sort.Strings(names)
+				s.PropertyOrder = shuffled(r, append(names, "stranger"))
+			}
+		}
+		snap := snapshot(s) // before any call into the package
+		n := 0
+		if len(s.Properties) >= 1 {
+			n = 1
+		}
+		return &PureGoCase{SchemaCase: &SchemaCase{ID: id, S: s, Note: fmt.Sprintf("nontrivial=%d shape=p%d.o%d.%s", n, len(s.Properties), len(s.PropertyOrder), shapeOfSchema(s))}, snap0: snap}
+	}
+}
